@@ -10,9 +10,11 @@
 
 #include "numbers/NumberUtils.h"
 
+#include <cstring>
+
 namespace opensmt {
 
-   class strConvException : std::exception {
+   class strConvException : public std::exception {
         char *reason;
     public:
         strConvException(const char *reason_) {
@@ -38,6 +40,7 @@ namespace opensmt {
 
     bool static inline isIntString(char const *str) {
         if (str[0] == '\0') return false;
+        if (str[0] == '-' and str[1] == '\0') return false; // a lone sign is not a number
 
         for (int i = str[0] == '-' ? 1 : 0; str[i] != '\0'; i++) {
             if (not isDigit(str[i])) {
@@ -107,6 +110,13 @@ namespace opensmt {
     }
 
     bool static inline stringToRational(char *&rat, const char *flo) {
+        // Only well-formed literals with a non-zero denominator have a value
+        if (not isRealString(flo)) { throw strConvException(flo); }
+        if (char const * slash = strchr(flo, '/')) {
+            bool nonZero = false;
+            for (char const * p = slash + 1; *p != '\0'; ++p) { nonZero |= isPosDig(*p); }
+            if (not nonZero) { throw strConvException(flo); }
+        }
         int nom_l = 0;
         int den_l = 1;
         int state = 0;
